@@ -152,7 +152,8 @@ def execute(sc, ctx):
             ctx.probe("shape_not_judged_after_known_finding")
             return True
         ctx.check(f"{P}.shape")
-        prob = shape_problem(G, spec)
+        spec_here = info.get("spec") or spec            # a second network given to the same object has its own motif list
+        prob = shape_problem(G, spec_here)
         if prob is None:
             ctx.probe("state_strictly_shape_clean")
             return True
@@ -166,7 +167,7 @@ def execute(sc, ctx):
             (p, pe), (q, qe) = sorted(ids.items(), key=lambda kv: repr(kv[0]))
             override = {e: q for e in pe}
             override.update({e: p for e in qe})
-            if shape_problem(G, spec, override) is None:
+            if shape_problem(G, spec_here, override) is None:
                 state["tainted"] = True
                 ctx.violate(f"{P}.shape", f"{prob} {where}; explained exactly by created edges carrying the motif id of the "
                                           f"focal vertex's old motif (ids {p} and {q} exchanged)", finding=FINDING)
